@@ -267,14 +267,23 @@ impl<'buf, 'fds> Variant<'fds, 'buf> {
     ) -> UnmarshalResult<Self> {
         ctx.align_to(sig.get_alignment())?;
 
+        // the value is nested in this variant
+        ctx.enter_container()?;
         let (buf, offset) = ctx.buf_and_offset();
-        let val_bytes =
-            crate::wire::validate_raw::validate_marshalled(ctx.byteorder, offset, buf, &sig)
-                .map_err(|e| e.1)?;
+        let val_bytes = crate::wire::validate_raw::validate_marshalled_at_depth(
+            ctx.byteorder,
+            offset,
+            buf,
+            &sig,
+            ctx.depth(),
+        )
+        .map_err(|e| e.1);
+        let sub_ctx = val_bytes.and_then(|val_bytes| ctx.sub_context(val_bytes));
+        ctx.leave_container();
 
         Ok(Variant {
             sig,
-            sub_ctx: ctx.sub_context(val_bytes)?,
+            sub_ctx: sub_ctx?,
         })
     }
 }
